@@ -374,7 +374,7 @@ def compile_one(req, outdir):
             if not getattr(err, "reported", False):
                 pos = getattr(err, "position", None)
                 recorded.append({"type": type(err).__name__, "pos": bool(pos) and len(pos) == 3 and pos[1] is not None,
-                                 "msg": str(getattr(err, "message_only", err))[:400]})
+                                 "msg": (lambda m_: m_ if len(m_) <= 700 else m_[:300] + "\n...\n" + m_[-400:])(str(getattr(err, "message_only", err)))})
         except Exception as e:
             recorded.append({"type": "?", "pos": False, "msg": repr(e)})
         return real_report(err, use_stack)
@@ -421,6 +421,7 @@ def main():
             if pid == 0:
                 try:
                     signal.alarm(tmo)
+                    sys.setrecursionlimit(8000)     # the parser runs from .py sources here: deeper Python recursion than the compiled one
                     r = compile_one(rq, outdir)
                     p = os.path.join(outdir, rq["id"] + ".json")
                     with open(p + ".tmp", "w") as f:
@@ -490,7 +491,9 @@ def verdict(r):
     if crashes or r.get("traceback_in_log"):
         m = re.search(r"Compiler crash in (\w+)", crashes[0]["msg"]) if crashes else None
         last = (crashes[0]["msg"].strip().splitlines() or ["?"])[-1] if crashes else "traceback"
-        return "crash", "%s: %s" % (m.group(1) if m else "?", last[:80])
+        fr = re.findall(r'File "[^"]*/(\w+\.py)", line \d+, in (\w+)', crashes[0]["msg"]) if crashes else []
+        return "crash", "%s@%s:%s: %s" % (last.split(":")[0][:30], fr[-1][0] if fr else (m.group(1) if m else "?"),
+                                         fr[-1][1] if fr else "", last[:80])
     if r["outcome"] == "ok":
         g = r.get("gcc")
         if g and g[0] != 0:
@@ -559,7 +562,7 @@ def classify(src, ext, vd, forced=None):
                 return k
         if "def_in_match_case" in f and "cf_is_null" in detail:
             return "def_in_match_case_inline_call_crash"
-        return "internal_crash:" + re.sub(r"[^A-Za-z0-9_@:.]+", "_", detail)[:70]
+        return "internal_crash:" + re.sub(r"[^A-Za-z0-9_@:.]+", "_", detail.split(": ")[0])[:70]
     if kind == "c_error":
         if "def_in_match_case" in f and "__pyx_mdef_" in detail:
             return "def_in_match_case_c_error"
@@ -700,7 +703,7 @@ def run_programs(ctx):
     import C43_gen
     rng = ctx.rng
     quick = ctx.tier == "quick"
-    n_gen, n_lit, n_mut = (14, 4, 14) if quick else (300, 60, 400)
+    n_gen, n_lit, n_mut = (14, 4, 14) if quick else (160, 40, 200)
     progs, meta = [], {}
     def add(kind, ext, src, forced=None):
         pid = "%s%d" % (kind[0], len(progs))
@@ -748,10 +751,10 @@ def run_programs(ctx):
             unknown[k] = (src, ext)
     ctx.extra["outcome_histogram"] = {"%s/%s" % k: v for k, v in sorted(hist.items())}
     # shrink what is new (bounded) so that the replay file carries a small program
-    for k, (src, ext) in list(unknown.items())[:1 if quick else 4]:
+    for k, (src, ext) in list(unknown.items())[:0 if quick else 2]:
         if len(src) < 200:
             continue
-        small = shrink(ctx, src, ext, k, rounds=3 if quick else 10)
+        small = shrink(ctx, src, ext, k, rounds=6)
         if small != src:
             ctx.note("shrunk %s from %d to %d chars:\n%s" % (k, len(src), len(small), small[:1500]))
             for f in ctx.prop_failures:
